@@ -294,12 +294,354 @@ def _case_values(ctx, case):
         ctx.oracle_fail(case, f"[{tag}, n={n}] " + "; ".join(probs[:4]))
 
 
+# =========================================================================== leg-calculus cases
+
+def _node_tok(nd):
+    p, ch = nd
+    return f"{'-' if p is None else p}/{','.join(str(c) for c in ch) or '-'}"
+
+
+def _nbrs(nd):
+    p, ch = nd
+    return ([] if p is None else [p]) + list(ch)
+
+
+def _mk_node(ident, nd, ndim):
+    from pytreenet.core.node import Node
+    p, ch = nd
+    node = Node(identifier=str(ident))
+    if p is not None:
+        node.add_parent(str(p))
+    node.add_children([str(c) for c in ch])
+    return node
+
+
+def legs_line(case):
+    fn = case["fn"]
+    if fn == "detidx":
+        return f"C04 detidx {_node_tok(case['ket'])} {case['nb']} {case['ign']}"
+    if fn == "equiv":
+        ign = ",".join(str(x) for x in case["ignore"]) or "-"
+        return f"C04 equiv {_node_tok(case['ket'])} {_node_tok(case['bra'])} {ign} {case['off']}"
+    if fn == "allbut":
+        return f"C04 allbut {case['axis']} {case['three']} {_node_tok(case['ket'])} {case['next']}"
+    if fn == "all":
+        return f"C04 all {case['axis']} {case['three']} {_node_tok(case['ket'])}"
+    if fn == "any":
+        return f"C04 any {_node_tok(case['ket'])} {_node_tok(case['bra'])} {case['next']} {case['off']}"
+    if fn == "root":
+        return f"C04 root {_node_tok(case['ket'])} {_node_tok(case['bra'])}"
+    if fn == "opany":
+        return (f"C04 opany {_node_tok(case['ket'])} {_node_tok(case['op'])} {_node_tok(case['bra'])} {case['next']} "
+                f"{case['offop']} {case['off']}")
+    if fn == "oproot":
+        return f"C04 oproot {_node_tok(case['ket'])} {_node_tok(case['op'])}"
+    raise ValueError(fn)
+
+
+class _Dims:
+    """One dimension per label class; bound partners share the class."""
+
+    def __init__(self, rng, distinct):
+        self.rng = rng
+        self.distinct = distinct
+        self.pool = list(range(2, 40))
+        rng.shuffle(self.pool)
+        self.pool.sort(key=lambda x: x // 4)      # small numbers first, shuffled inside groups
+        self.d = {}
+
+    def get(self, cls):
+        if cls not in self.d:
+            self.d[cls] = self.pool.pop(0) if self.distinct else self.rng.choice([1, 2, 2, 3])
+        return self.d[cls]
+
+
+def _run_legs_impl(case):
+    """Run the real helper. Returns ('int', value) | ('tensor', array, operands) | ('error', text);
+    operands: list of (array, labels)."""
+    from pytreenet.contractions import contraction_util as cu
+    from pytreenet.contractions import state_state_contraction as ss
+    from pytreenet.contractions import state_operator_contraction as so
+    from pytreenet.contractions.tree_cach_dict import PartialTreeCachDict
+    fn = case["fn"]
+    rng = random.Random(case["seed"])
+    nprng = np.random.default_rng(case["seed"])
+    off = case.get("off", 0)
+    offop = case.get("offop", 0)
+    me = 1000
+    ket = case["ket"]
+    knb = _nbrs(ket)
+    dims = _Dims(rng, case.get("distinct", True))
+    square = fn == "oproot"
+
+    def dk(n):
+        return dims.get(("K", n))
+
+    def db(n):          # n: ket-side identifier
+        return dk(n) if square else dims.get(("B", n))
+
+    def do(n):
+        return dims.get(("O", n))
+    d_in = dims.get("in")
+    d_out = d_in if (square or fn in ("any", "root")) else dims.get("out")
+
+    def rnd(shape):
+        return gen.rand_tensor(nprng, shape, True, False)
+    ket_node = _mk_node(me, ket, len(knb) + 1)
+    ket_t = rnd([dk(n) for n in knb] + [d_in])
+    ket_node.link_tensor(ket_t)
+    ket_op = (ket_t, [f"kN{n}" for n in knb] + ["kP"])
+    try:
+        if fn == "detidx":
+            return ("int", cu.determine_index_with_ignored_leg(ket_node, str(case["nb"]), str(case["ign"])))
+        if fn == "equiv":
+            n2 = _mk_node(me, case["bra"], 0)
+            trafo = (lambda s: str(int(s) + off)) if off else None
+            l1, l2 = cu.get_equivalent_legs(ket_node, n2, [str(x) for x in case["ignore"]], id_trafo=trafo)
+            return ("int", (list(l1), list(l2)))
+        three = bool(case.get("three", 0)) or fn in ("opany", "oproot")
+        cache = PartialTreeCachDict()
+        blocks = []
+        nxt = case.get("next")
+        for n in knb:
+            if fn in ("allbut", "any", "opany") and n == nxt:
+                continue
+            if fn in ("any", "opany") and not ket[1]:
+                continue            # a leaf: the dictionary is never consulted
+            if three:
+                b = rnd([dk(n), do(n), db(n)])
+                labs = [f"BK{n}", f"BO{n}", f"BB{n}"]
+            else:
+                b = rnd([dk(n), db(n)])
+                labs = [f"BK{n}", f"BB{n}"]
+            cache.add_entry(str(n), str(me), b)
+            blocks.append((b, labs))
+        if fn in ("allbut", "all"):
+            if case["axis"] == 0:
+                ops = [ket_op] + blocks
+                if fn == "allbut":
+                    r = cu.contract_all_but_one_neighbour_block_to_ket(ket_t, ket_node, str(nxt), cache)
+                else:
+                    r = cu.contract_all_neighbour_blocks_to_ket(ket_t, ket_node, cache)
+            else:       # the node is an operator node, blocks bound at axis 1
+                op_t = rnd([do(n) for n in knb] + [d_out, d_in])
+                ket_node.link_tensor(op_t)
+                ops = [(op_t, [f"oN{n}" for n in knb] + ["oO", "oI"])] + blocks
+                if fn == "allbut":
+                    r = cu.contract_all_but_one_neighbour_block_to_hamiltonian(op_t, ket_node, str(nxt), cache)
+                else:
+                    r = cu.contract_all_neighbour_blocks_to_hamiltonian(op_t, ket_node, cache)
+            return ("tensor", r, ops)
+        # functions with a bra node
+        bra = case.get("bra", ket)
+        bnb = _nbrs(bra)
+        bra_node = _mk_node(me + off if off else me, bra, len(bnb) + 1)
+
+        def inv_b(x):       # bra-side identifier -> ket-side identifier (for the dimension class)
+            return x - off
+        bra_t = rnd([db(inv_b(x)) for x in bnb] + [d_out])
+        bra_node.link_tensor(bra_t)
+        bra_op = (bra_t, [f"bN{x}" for x in bnb] + ["bP"])
+        trafo_b = (lambda s: str(int(s) + off)) if off else None
+        if fn == "any":
+            r = ss.contract_any_nodes(str(nxt), ket_node, bra_node, ket_t, bra_t, cache, id_trafo=trafo_b)
+            return ("tensor", r, [ket_op, bra_op] + blocks)
+        if fn == "root":
+            r = ss.contract_node_with_environment_nodes(ket_node, ket_t, bra_node, bra_t, cache)
+            return ("tensor", r, [ket_op, bra_op] + blocks)
+        opn = case["op"]
+        onb = _nbrs(opn)
+        op_node = _mk_node(me + offop if offop else me, opn, len(onb) + 2)
+        op_t = rnd([do(x - offop) for x in onb] + [d_out, d_in])
+        op_node.link_tensor(op_t)
+        op_op = (op_t, [f"oN{x}" for x in onb] + ["oO", "oI"])
+        trafo_o = (lambda s: str(int(s) + offop)) if offop else None
+        if fn == "opany":
+            r = so.contract_any_node_environment_but_one(str(nxt), ket_node, ket_t, op_node, op_t, cache,
+                                                         bra_node=bra_node, bra_tensor=bra_t,
+                                                         id_trafo_op=trafo_o, id_trafo_bra=trafo_b)
+            return ("tensor", r, [ket_op, op_op, bra_op] + blocks)
+        if fn == "oproot":
+            r = so.contract_node_with_environment(str(me), {str(me): (ket_node, ket_t)},
+                                                  {str(me): (op_node, op_t)}, cache)
+            bra_op = (ket_t.conj(), [f"bN{n}" for n in knb] + ["bP"])
+            return ("tensor", r, [ket_op, op_op, bra_op] + blocks)
+    except Exception as e:      # noqa: BLE001
+        return ("error", f"{type(e).__name__}: {str(e)[:120]}")
+    raise ValueError(fn)
+
+
+def _einsum_from_model(model_out, operands):
+    """Evaluate the model's answer: returns (array, None) or (None, problem)."""
+    if " | " not in model_out or not model_out.startswith("legs"):
+        return None, f"unparsable model answer {model_out!r}"
+    lpart, bpart = model_out.split(" | ")
+    legs = lpart.split()[1:]
+    binds = [tuple(x.split("~")) for x in bpart.split()[1:]]
+    all_labels = [l for _, labs in operands for l in labs]
+    if len(set(all_labels)) != len(all_labels):
+        return None, "harness: duplicate operand labels"
+    used = list(legs) + [x for b in binds for x in b]
+    if sorted(used) != sorted(all_labels):
+        return None, f"model: free+bound legs {sorted(used)} are not exactly the operand legs {sorted(all_labels)}"
+    sym = {}
+    nxt = 0
+    for a, b in binds:
+        sym[a] = sym[b] = nxt
+        nxt += 1
+    for l in legs:
+        sym[l] = nxt
+        nxt += 1
+    if nxt > 50:
+        return None, "harness: too many indices"
+    args = []
+    for arr, labs in operands:
+        args += [arr, [sym[l] for l in labs]]
+    args.append([sym[l] for l in legs])
+    try:
+        return np.einsum(*args, optimize="greedy"), None
+    except Exception as e:      # noqa: BLE001
+        return None, f"model binding is not executable on these dimensions: {type(e).__name__}: {str(e)[:100]}"
+
+
+def _case_legs(ctx, case, model_out=None):
+    if model_out is None:
+        model_out = ctx.lean.batch([legs_line(case)])[0]
+    fn = case["fn"]
+    res = _run_legs_impl(case)
+    knb = _nbrs(case["ket"])
+    differs = any(k in case and _nbrs(case[k]) != [x + case.get("off" if k == "bra" else "offop", 0) for x in knb]
+                  for k in ("bra", "op"))
+    ctx.tally("legs_fn", fn + ("/3-layer" if case.get("three") else "") + ("/ham" if case.get("axis") else ""))
+    ctx.tally("legs_neighbours", len(knb))
+    ctx.tally("legs_outcome", res[0])
+    ctx.count(("legs", legs_line(case), case.get("distinct", True)),
+              nontrivial=len(knb) >= 2 and (differs or fn in ("allbut", "all", "detidx")), corr=True)
+    if model_out == "bad-op":
+        ctx.corr_fail(case, f"model rejects the request {legs_line(case)!r}")
+        return
+    if res[0] == "error":
+        if model_out != "error":
+            ctx.corr_fail(case, f"{fn}: library raised {res[1]} but the model answers [{model_out}]")
+        return
+    if model_out == "error":
+        ctx.corr_fail(case, f"{fn}: model predicts an exception, library returned a result")
+        return
+    if res[0] == "int":
+        if fn == "detidx":
+            impl = str(res[1])
+        else:
+            impl = " | ".join(",".join(str(x) for x in l) or "-" for l in res[1])
+        if impl != model_out:
+            ctx.corr_fail(case, f"{fn}: library [{impl}] model [{model_out}]")
+        return
+    _, arr, operands = res
+    ref, prob = _einsum_from_model(model_out, operands)
+    if prob:
+        ctx.corr_fail(case, f"{fn}: {prob}; model [{model_out}]")
+        return
+    arr = np.asarray(arr)
+    if arr.shape != ref.shape:
+        ctx.corr_fail(case, f"{fn}: library result shape {arr.shape} != predicted free legs {ref.shape} [{model_out}]")
+        return
+    scale = max(float(np.linalg.norm(ref)), 1e-300)
+    if float(np.linalg.norm(arr - ref)) > 1e-9 * scale:
+        ctx.corr_fail(case, f"{fn}: library value differs from the contraction over the predicted bound pairs "
+                            f"[{model_out}]")
+
+
+def _perms_of(lst, rng, limit):
+    import itertools
+    ps = list(itertools.permutations(lst))
+    if len(ps) > limit:
+        ps = [tuple(lst)] + rng.sample(ps, limit - 1)
+    return [list(p) for p in ps]
+
+
+def gen_legs_cases(ctx):
+    rng = ctx.subrng("legs")
+    cases = []
+    max_exh = 3 if ctx.tier == "quick" else 4
+    shapes = []
+    for m in range(0, max_exh + 1):                 # number of neighbours
+        ids = rng.sample(range(1, 30), m)
+        for has_parent in ([False] if m == 0 else [False, True]):
+            ket = (ids[0], ids[1:]) if has_parent else (None, ids)
+            shapes.append((ket, True, 24))
+    for _ in range(ctx.n(80, 800)):                # larger random ones, small (also equal / unit) dimensions
+        m = rng.randint(3, 6)
+        ids = rng.sample(range(1, 60), m)
+        ket = (ids[0], ids[1:]) if rng.random() < 0.6 else (None, ids)
+        shapes.append((ket, rng.random() < 0.3 and m <= 4, 3))
+    for ket, distinct, plimit in shapes:
+        knb = _nbrs(ket)
+        m = len(knb)
+        seed = rng.randrange(10 ** 9)
+        # other layers: same parent with permuted children, or a root node with all neighbours as children
+        def others(off):
+            outs = []
+            for ch in _perms_of([c + off for c in ket[1]], rng, plimit):
+                outs.append((None if ket[0] is None else ket[0] + off, ch))
+            if ket[0] is not None and m <= 3:
+                for ch in _perms_of([x + off for x in knb], rng, 4):
+                    outs.append((None, ch))
+            return outs
+        base = {"kind": "legs", "ket": ket, "seed": seed, "distinct": distinct}
+        for three in (0, 1):
+            if m <= (4 if three == 0 else 3) or not distinct:
+                cases.append(dict(base, fn="all", axis=0, three=three, distinct=distinct and m <= 3))
+                for nxt in knb:
+                    cases.append(dict(base, fn="allbut", axis=0, three=three, next=nxt, distinct=distinct and m <= 3))
+        if m <= 4:
+            cases.append(dict(base, fn="all", axis=1, three=1, distinct=distinct and m <= 2))
+            for nxt in knb:
+                cases.append(dict(base, fn="allbut", axis=1, three=1, next=nxt, distinct=distinct and m <= 3))
+        for a in knb:
+            for b in knb:
+                cases.append(dict(base, fn="detidx", nb=a, ign=b))
+        off = rng.choice([0, 0, 100])
+        for bra in others(off):
+            cases.append(dict(base, fn="root", bra=_shift(bra, -off)))
+            ign_sets = [[]] + [[x] for x in knb[:2]]
+            for ign in ign_sets:
+                cases.append(dict(base, fn="equiv", bra=bra, ignore=ign, off=off))
+            for nxt in knb:
+                cases.append(dict(base, fn="any", bra=bra, next=nxt, off=off))
+        if m <= 5:
+            offop = rng.choice([0, 0, 200])
+            obs = others(offop)
+            bbs = others(off)
+            pairs = [(o, b) for o in obs for b in bbs]
+            if len(pairs) > 12:
+                pairs = rng.sample(pairs, 12)
+            for o, b in pairs:
+                dd = distinct and m <= 2
+                for nxt in knb:
+                    cases.append(dict(base, fn="opany", op=o, bra=b, next=nxt, off=off, offop=offop, distinct=dd))
+            for o in obs[:8]:
+                cases.append(dict(base, fn="oproot", op=_shift(o, -offop), distinct=distinct and m <= 2))
+        # malformed: next not a neighbour, a neighbour replaced in the bra node
+        if m >= 1:
+            cases.append(dict(base, fn="allbut", axis=0, three=0, next=99))
+            cases.append(dict(base, fn="any", bra=ket, next=99, off=0))
+            bad = (ket[0], list(ket[1][:-1]) + [98]) if ket[1] else (98, [])
+            cases.append(dict(base, fn="any", bra=bad, next=knb[0], off=0))
+            cases.append(dict(base, fn="root", bra=bad))
+            cases.append(dict(base, fn="opany", op=bad, bra=ket, next=knb[0], off=0, offop=0, distinct=False))
+            cases.append(dict(base, fn="detidx", nb=knb[0], ign=knb[0]))
+    return cases
+
+
+def _shift(nd, d):
+    return (None if nd[0] is None else nd[0] + d, [x + d for x in nd[1]])
+
+
 # =========================================================================== cases
 
 def gen_cases(ctx):
     rng = ctx.rng
     cases = []
-    nvals = ctx.n(170, 2500)
+    nvals = ctx.n(700, 8000)
     for k in range(nvals):
         kind = rng.choice([None, None, None, "spider", "chain", "star"])
         n = rng.choice([3, 4, 5, 6, 7]) if kind else rng.choice([1, 1, 2, 3, 4, 5, 6, 7])
@@ -320,6 +662,12 @@ def run(ctx):
     from harness import common
     for path in sorted(glob.glob(os.path.join(common.CORPUS_DIR, "C04", "*.json"))):
         run_case(ctx, common.unjson(json.load(open(path))).get("case", {}))
+    legs = gen_legs_cases(ctx)
+    outs = ctx.lean.batch([legs_line(c) for c in legs])
+    for c, mo in zip(legs, outs):
+        if ctx.time_left() < 0:
+            break
+        _case_legs(ctx, c, mo)
     for c in gen_cases(ctx):
         if ctx.time_left() < 0:
             break
@@ -329,6 +677,12 @@ def run(ctx):
 def run_case(ctx, case):
     if case.get("kind") == "values":
         _case_values(ctx, case)
+    elif case.get("kind") == "legs":
+        case = dict(case)
+        for k in ("ket", "bra", "op"):      # JSON round trip turns the pairs into lists
+            if k in case:
+                case[k] = (case[k][0], list(case[k][1]))
+        _case_legs(ctx, case)
 
 
 def shrink(case):
